@@ -30,6 +30,23 @@ type Cutter struct {
 	OnCut    func(dir string)
 	closeOne sync.Once
 	CloseErr error // what Close() reports (the connection is closed all the same)
+	deaf     chan struct{}
+}
+
+// GoDeaf shuts down the read side of the underlying unix socket - the peer's writes fail with EPIPE from now on -
+// while this end's reader is kept waiting instead of being told that the stream ended: the peer does not get an
+// end-of-file in return, it learns of the loss only by writing.
+func (c *Cutter) GoDeaf() bool {
+	u, ok := c.Conn.(*net.UnixConn)
+	if !ok {
+		return false
+	}
+	c.mu.Lock()
+	if c.deaf == nil {
+		c.deaf = make(chan struct{})
+	}
+	c.mu.Unlock()
+	return u.CloseRead() == nil
 }
 
 func NewCutter(c net.Conn) *Cutter {
@@ -75,6 +92,9 @@ func (c *Cutter) doCut(dir string) {
 	c.closeOne.Do(func() {
 		c.mu.Lock()
 		c.cut = true
+		if c.deaf != nil {
+			close(c.deaf)
+		}
 		c.mu.Unlock()
 		c.Conn.Close()
 		if c.OnCut != nil {
@@ -99,6 +119,13 @@ func (c *Cutter) Read(b []byte) (int, error) {
 		return 0, io.EOF
 	}
 	n, err := c.Conn.Read(b[:limit])
+	c.mu.Lock()
+	deaf := c.deaf
+	c.mu.Unlock()
+	if deaf != nil && n == 0 {
+		<-deaf // (closed together with the connection)
+		return 0, io.EOF
+	}
 	c.mu.Lock()
 	c.rd += int64(n)
 	hit := c.cutRd >= 0 && c.rd >= c.cutRd
